@@ -118,6 +118,7 @@ def styles(draw: Any) -> render_bp.Style:
         semicolons=draw(st.sampled_from(["none", "none", "all", "mixed"])),
         seed=draw(st.integers(0, 9999)),
         blank_lines=draw(st.sampled_from([1, 1, 0, 2])),
+        op_spacing=draw(st.booleans()),
     )
 
 
